@@ -4,30 +4,43 @@ it breaks (and any extra properties given in meta['also_run']); records which si
 and prints a table. /repo must be clean; every patch is undone straight after its run."""
 import json, os, subprocess, sys, glob, re
 V = "/verif"
+# SEED_REPO: the tree the patches are applied to. With a scratch worktree (not /repo) the matrix can run next to
+# other checks: it then uses its own build and evidence directories.
+R = os.environ.get("SEED_REPO", "/repo")
+ENV = dict(os.environ, VERIF_EVIDENCE_DIR=V + "/work/seed_evidence")  # evidence of runs on changed trees is not kept
+BUILD = V + "/build"
+if R != "/repo":
+    BUILD = V + "/build_seed"
+    ENV.update(VERIF_REPO=R, VERIF_BUILD=BUILD, VERIF_EVIDENCE_DIR=V + "/work/seed_evidence")
 only = sys.argv[1:]
 rows = []
+if R != "/repo":
+    if not os.path.isdir(R):
+        subprocess.run(["git", "-C", "/repo", "worktree", "add", "-q", "--detach", R, "HEAD"], check=True)
+    head = subprocess.run(["git", "-C", "/repo", "rev-parse", "HEAD"], capture_output=True, text=True).stdout.strip()
+    subprocess.run(["git", "-C", R, "checkout", "-q", "--detach", head], check=True)
 for meta_path in sorted(glob.glob(V + "/seeded/*/meta.json")):
     d = os.path.dirname(meta_path)
     meta = json.load(open(meta_path))
     sid = meta["seed"]
     if only and sid not in only and meta["breaks_property"] not in only:
         continue
-    if subprocess.run(["git", "-C", "/repo", "status", "--porcelain", "--untracked-files=no"], capture_output=True, text=True).stdout.strip():
-        print("/repo not clean"); sys.exit(3)
+    if subprocess.run(["git", "-C", R, "status", "--porcelain", "--untracked-files=no"], capture_output=True, text=True).stdout.strip():
+        print(R + " not clean"); sys.exit(3)
     props = [meta["breaks_property"]] + meta.get("also_run", [])
-    if subprocess.run(["git", "-C", "/repo", "apply", d + "/patch.diff"]).returncode != 0:
+    if subprocess.run(["git", "-C", R, "apply", d + "/patch.diff"]).returncode != 0:
         rows.append((sid, "patch no longer applies", "")); continue
     det = []
     try:
         for p in props:
             try:
-                r = subprocess.run(["timeout", "-k", "30", "2400", "./check", p, "--tier", "quick"], cwd=V, capture_output=True, text=True)
+                r = subprocess.run(["timeout", "-k", "30", "2400", "./check", p, "--tier", "quick"], cwd=V, env=ENV, capture_output=True, text=True)
                 sigs = sorted(set(re.findall(r"^  signature: (.*)$", r.stdout, re.M)))
                 det.append(dict(check=p, tier="quick", exit=r.returncode, signatures=sigs[:6]))
             finally:
-                subprocess.run(["pkill", "-9", "-f", "^/verif/build/.*[.]test"])  # orphans of a timed-out check (not those of background sweeps, which live elsewhere)
+                subprocess.run(["pkill", "-9", "-f", "^" + BUILD + "/.*[.]test"])  # orphans of a timed-out check (not those of background sweeps, which live elsewhere)
     finally:
-        subprocess.run(["git", "-C", "/repo", "checkout", "--", "."])
+        subprocess.run(["git", "-C", R, "checkout", "--", "."])
     meta["detected_by"] = det
     json.dump(meta, open(meta_path, "w"), indent=1)
     rows.append((sid, "; ".join("%s rc=%d" % (x["check"], x["exit"]) for x in det), "; ".join(s for x in det for s in x["signatures"][:2])))
